@@ -740,7 +740,8 @@ func (m *Module) EmitGenConvert(x Value, typ ValueType) (insts []wat.Inst) {
 		insts = append(insts, x.EmitPush()...)
 		switch {
 		case xt.Equal(m.I32): //Todo: xt.Equal(m.I8), xt.Equal(m.I16)
-			insts = append(insts, wat.NewInstConvert_i64_extend_i32_u())
+			// the source is signed: u64(i32(-1)) is 0xFFFFFFFFFFFFFFFF
+			insts = append(insts, wat.NewInstConvert_i64_extend_i32_s())
 
 		case xt.Equal(m.U8), xt.Equal(m.U16), xt.Equal(m.U32), xt.Equal(m.RUNE):
 			insts = append(insts, wat.NewInstConvert_i64_extend_i32_u())
